@@ -288,20 +288,36 @@ impl<const H: usize> Writer<H> {
         if crate::verif::fail_point("seglog:append:io", offset, total_record_len as u64) {
             return Err(io::Error::other("verif: injected append failure").into());
         }
-        self.writer.write_all(&length_bytes)?;
-        self.writer.write_all(&crc.to_le_bytes())?;
-        self.writer.write_all(header)?;
-        #[cfg(feature = "verif")]
-        if crate::verif::fail_point("seglog:append:io:mid", offset, total_record_len as u64) {
-            return Err(io::Error::other("verif: injected append failure (mid record)").into());
+        if let Err(err) = self.write_record(&length_bytes, crc, header, &final_data) {
+            // Part of the record may already sit in the write buffer: move back to the start
+            // of the record, so the next append overwrites it instead of landing behind it
+            let _ = self.writer.seek(SeekFrom::Start(offset));
+            return Err(err.into());
         }
-        self.writer.write_all(&final_data)?;
 
         self.write_offset += total_record_len as u64;
         #[cfg(feature = "verif")]
         crate::verif::point("seglog:appended", offset, total_record_len as u64);
 
         Ok((offset, total_record_len))
+    }
+
+    fn write_record(
+        &mut self,
+        length_bytes: &[u8; 4],
+        crc: u32,
+        header: &[u8; H],
+        data: &[u8],
+    ) -> io::Result<()> {
+        self.writer.write_all(length_bytes)?;
+        self.writer.write_all(&crc.to_le_bytes())?;
+        self.writer.write_all(header)?;
+        #[cfg(feature = "verif")]
+        if crate::verif::fail_point("seglog:append:io:mid", self.write_offset, data.len() as u64) {
+            return Err(io::Error::other("verif: injected append failure (mid record)"));
+        }
+        self.writer.write_all(data)?;
+        Ok(())
     }
 
     /// Returns the current write offset where the next record will be written.
